@@ -106,7 +106,8 @@ def write_umbrella(work):
 
 
 def run_phqx(mode, src, out, overlay, extra=()):
-    cmd = [PHQX, "--mode=" + mode, "--root=" + INC, "--extern-body=phq_verif_control", "--out=" + out] + (["--overlay=" + overlay] if overlay else []) + list(extra) + [src, "--"] + CLANG_FLAGS
+    cmd = [PHQX, "--mode=" + mode, "--root=" + INC, "--extern-body=phq_verif_control", "--extern-body=std::hash<float>::operator()",
+           "--extern-body=std::hash<double>::operator()", "--extern-body=std::hash<long double>::operator()", "--out=" + out] + (["--overlay=" + overlay] if overlay else []) + list(extra) + [src, "--"] + CLANG_FLAGS
     t0 = time.time()
     r = subprocess.run(cmd, capture_output=True, text=True)
     if not os.path.exists(out) or os.path.getsize(out) == 0:
